@@ -15,7 +15,7 @@ type readerPlan struct {
 	Chunks []int  `json:"chunks"` // sizes of successive deliveries; 0 = a (0,nil) read; exhausted = deliver all that fits
 	Fate   string `json:"fate"`   // "eof" | "err" | "" (= eof)
 	With   bool   `json:"with"`   // fate returned together with the last delivered bytes
-	Cut    int    `json:"cut"`    // -1 or absent: whole stream; else only bytes[:cut] are ever delivered
+	Cut    *int   `json:"cut"`    // absent: whole stream; else only bytes[:cut] are ever delivered
 }
 
 type readCall struct {
@@ -34,10 +34,10 @@ type scriptedReader struct {
 	dead  bool
 }
 
-func newScriptedReader(data []byte, plan readerPlan, hasCut bool) *scriptedReader {
+func newScriptedReader(data []byte, plan readerPlan) *scriptedReader {
 	d := data
-	if hasCut && plan.Cut >= 0 && plan.Cut < len(d) {
-		d = d[:plan.Cut]
+	if plan.Cut != nil && *plan.Cut >= 0 && *plan.Cut < len(d) {
+		d = d[:*plan.Cut]
 	}
 	return &scriptedReader{data: d, plan: plan}
 }
